@@ -258,12 +258,15 @@ def handle (args : List String) : String :=
     let fix7b := flags.getD 3 '1' == '1'
     let fixF8 := flags.getD 4 '1' == '1'
     let fixF2 := flags.getD 5 '1' == '1'
+    let fixF5 := flags.getD 6 '1' == '1'
+    let fixF5b := flags.getD 7 '1' == '1'
+    let fix7c := flags.getD 8 '0' == '1'
     match root.toNat?, (do
         let p ← pGPat
         let g ← pGraph
         pure (p, g) : Parser (GPat × Graph)).run rest with
     | some root, some ((p, g), []) =>
-      let E : Env := { p := p, g := g, close := closeQ, fixF1 := fixF1, fixF2 := fixF2, fixF3 := fixF3, fixF8 := fixF8 }
+      let E : Env := { p := p, g := g, close := closeQ, fixF1 := fixF1, fixF2 := fixF2, fixF3 := fixF3, fixF8 := fixF8, fixF5 := fixF5, fixF5b := fixF5b }
       let rm := isTrue rm
       match mode with
       | "impl" =>
@@ -275,7 +278,7 @@ def handle (args : List String) : String :=
         s!"S{sols.length}" ++ String.join (sols.map (fun s => " || " ++ showSol s))
       | "commute" =>
         if !p.ctorOk then "CTOR-ERR" else
-        (match commute fix7a p fix7b with
+        (match commute fix7a p fix7b fix7c with
          | .error .assertion => "ERR:assertion"
          | .error .valueError => "ERR:valueerror"
          | .error .notImplemented => "ERR:notimplemented"
